@@ -117,14 +117,19 @@ def entry_points(ctx):
     the setting was edited - each must give the modulus of the k = 1 fit times k^-p and the same contact point"""
     from nanite.fit import IndentationFitter
     rng = ctx.rng
-    for i in range(6 if ctx.tier == "quick" else 60):
+    for i in range(9 if ctx.tier == "quick" else 90):
         mk = list(POWER)[i % 3]
-        truth = fitlib.truth_params(mk, rng, cp=rng.choice([0.0, -4e-7, 1.1e-7]))
+        truth = fitlib.truth_params(mk, rng, cp=rng.choice([0.0, -4e-7, 1.1e-7, 2.5e-6]))
         idnt0 = fitlib.synth_curve(mk, truth, rng, n_app=200, n_ret=100, noise=0.0, seed=900 + i)
         p0 = fitlib.start_params(mk, truth, rng, rel=0.05)
         k0 = rng.choice([1.0, 1.0, 0.8])
         k = rng.choice([0.5, 0.25, 2.0, 1.5, 0.6135])
-        base = dict(model_key=mk, segment=0, weight_cp=0, range_type="absolute", range_x=[0, 0])
+        # minimisers with and without uncertainty estimates (lmfit reports stderr = None for the simplex method and
+        # when the covariance is switched off)
+        how = [("leastsq", {}), ("nelder", {}), ("leastsq", {"calc_covar": False})][(i // 3) % 3]
+        base = dict(model_key=mk, segment=0, weight_cp=0, range_type="absolute", range_x=[0, 0], method=how[0],
+                    method_kws=dict(how[1]))
+        tol_e, tol_cp = (2e-3, 5e-10) if how[0] == "leastsq" else (2e-2, 1.5e-8)
         ref = copy.deepcopy(idnt0)
         fitlib.fit(ref, **copy.deepcopy(base), params_initial=copy.deepcopy(p0), gcf_k=1.0)
         if not ref.fit_properties.get("success"):
@@ -135,7 +140,7 @@ def entry_points(ctx):
             idnt = copy.deepcopy(idnt0)
             fitlib.fit(idnt, **copy.deepcopy(base), params_initial=copy.deepcopy(p0), gcf_k=k0)
             meta = {"oracle": "entry-points", "model": mk, "k_before": k0, "k": k, "route": route,
-                    "cp_true": truth["contact_point"].value}
+                    "cp_true": truth["contact_point"].value, "method": how[0], "method_kws": how[1]}
             ctx.case(meta, nontrivial=json.dumps(meta, sort_keys=True), bucket=["stream=entry-points", f"k={k}"])
             with warnings.catch_warnings():
                 warnings.simplefilter("ignore")
@@ -157,9 +162,9 @@ def entry_points(ctx):
                               "same curve succeeds", {"input": meta})
                 continue
             bad = []
-            if abs(pf["E"].value * k ** POWER[mk] - e1) > 2e-3 * abs(e1):
+            if abs(pf["E"].value * k ** POWER[mk] - e1) > tol_e * abs(e1):
                 bad.append(f"E_k k^p = {pf['E'].value * k ** POWER[mk]!r} vs E_1 = {e1!r}")
-            if abs(pf["contact_point"].value - cp1) > 5e-10:
+            if abs(pf["contact_point"].value - cp1) > tol_cp:
                 bad.append(f"contact point {pf['contact_point'].value!r} vs {cp1!r}")
             if bad:
                 ctx.violation("k-not-equivalent:entry-point", f"{route} on a curve fitted before with k={k0}: " +
